@@ -45,6 +45,7 @@ theorem read_clean : ∀ t : Tree, read t Heap.clean = t := by
       rw [readKids_cons, ih2 (i + 1) (fun k' hk' => hk k' (List.mem_cons_of_mem _ hk'))]
       simp only [slotVal, Heap.clean, sub_clean]
       exact congrArg (· :: ks) (hk k List.mem_cons_self)
+  | hole v => rw [read]
 
 /-- only the element at position `i0` of the children changes when the heaps agree elsewhere -/
 theorem readKids_modify (h h' : Heap) (i0 : Nat) (f : Tree → Tree)
@@ -73,7 +74,9 @@ theorem read_set (r : Tree) : ∀ (q : Path) (t : Tree) (h : Heap) (i : Nat),
   induction q with
   | nil =>
     intro t h i _
-    obtain ⟨l, ks⟩ := t
+    cases t with
+    | hole v => simp [read, Tree.replaceAt]
+    | node l ks =>
     rw [read, read, Tree.replaceAt]
     congr 1
     have := readKids_modify h (h.set [i] (some r)) i (fun k => k.replaceAt [] r)
@@ -82,7 +85,9 @@ theorem read_set (r : Tree) : ∀ (q : Path) (t : Tree) (h : Heap) (i : Nat),
     simpa using this
   | cons i' q' ih =>
     intro t h i live
-    obtain ⟨l, ks⟩ := t
+    cases t with
+    | hole v => simp [read, Tree.replaceAt]
+    | node l ks =>
     rw [read, read, Tree.replaceAt]
     congr 1
     have hi : h [i] = none := live [i] (by simp) (by simp) (by simp)
@@ -116,7 +121,9 @@ theorem get?_replaceAt_incomparable : ∀ (t : Tree) (q : Path) (r : Tree) (p : 
     cases p with
     | nil => exact absurd (List.nil_prefix) h1
     | cons j p =>
-      obtain ⟨l, ks⟩ := t
+      cases t with
+      | hole v => simp [Tree.replaceAt]
+      | node l ks =>
       rw [Tree.replaceAt, Tree.get?, Tree.get?, List.getElem?_modify]
       by_cases hij : i = j
       · subst hij
@@ -140,7 +147,12 @@ theorem get?_replaceAt_above : ∀ (t : Tree) (q : Path) (r : Tree) (p : Path) (
     cases q with
     | nil => exact absurd rfl hne
     | cons i q =>
-      obtain ⟨l, ks⟩ := t
+      cases t with
+      | hole v =>
+        simp only [Tree.get?, Option.some.injEq] at hg
+        subst hg
+        exact ⟨Tree.hole v, by rw [Tree.replaceAt, Tree.get?], rfl, rfl⟩
+      | node l ks =>
       simp only [Tree.get?, Option.some.injEq] at hg
       subst hg
       refine ⟨Tree.node l (ks.modify i fun k => k.replaceAt q r), ?_, rfl, ?_⟩
@@ -153,7 +165,9 @@ theorem get?_replaceAt_above : ∀ (t : Tree) (q : Path) (r : Tree) (p : Path) (
     | cons i q =>
       obtain ⟨hji, hp'⟩ := List.cons_prefix_cons.mp hp
       subst hji
-      obtain ⟨l, ks⟩ := t
+      cases t with
+      | hole v => simp [Tree.get?] at hg
+      | node l ks =>
       rw [Tree.get?] at hg
       cases hk : ks[j]? with
       | none => rw [hk] at hg; cases hg
@@ -290,5 +304,108 @@ theorem mem_yields_visit_none (op : Op) (tgt : Target) : ∀ (t : Tree) (h : Hea
               exact List.mem_append_left _ (List.mem_map.mpr ⟨i0, hk k List.mem_cons_self _ _ _ hi0, rfl⟩)
             · exact List.mem_append_right _ (ih2 (j + 1) (fun k' hk' => hk k' (List.mem_cons_of_mem _ hk')) b)
       · simp [yields] at h3
+  | hole v => intro h p i hi; simp [visit, yields] at hi
+
+end PynguinModel.Mutants
+
+namespace PynguinModel.Mutants
+
+/-! ### placeholders (`Tree.hole`): the generators only ever touch slots of real nodes -/
+
+/-- the slot an event touches: the slot written, or the slot of the mutated node of a yield -/
+def Ev.slot : Ev → Path
+  | .write q _ => q
+  | .yield i => i.path
+
+/-- the path names a real node of the tree (not a placeholder, not nothing) -/
+def Tree.nodeAt (t : Tree) (q : Path) : Prop := ∃ l ks, t.get? q = some (.node l ks)
+
+theorem slot_visitKids (op : Op) (tgt : Target) : ∀ (ks : List Tree) (h : Heap) (p : Path) (i : Nat),
+    (∀ k ∈ ks, ∀ (h' : Heap) (p' : Path), ∀ e ∈ visit op tgt h' p' k, k.nodeAt e.slot) →
+    ∀ e ∈ visitKids op tgt h p ks i,
+      e.slot = [] ∨ ∃ j q' k, e.slot = (i + j) :: q' ∧ ks[j]? = some k ∧ k.nodeAt q' := by
+  intro ks
+  induction ks with
+  | nil => intro h p i _ e he; simp [visitKids] at he
+  | cons k ks ih =>
+    intro h p i hk e he
+    rw [visitKids] at he
+    rcases List.mem_append.mp he with h1 | h2
+    · obtain ⟨e0, he0, hl⟩ := List.mem_flatMap.mp h1
+      have hk0 := hk k List.mem_cons_self _ _ e0 he0
+      cases e0 with
+      | write q0 c0 =>
+        simp only [liftEv, List.mem_singleton] at hl
+        subst hl
+        exact Or.inr ⟨0, q0, k, by simp [Ev.slot], by simp, hk0⟩
+      | yield info =>
+        simp only [liftEv, List.mem_cons, List.not_mem_nil, or_false] at hl
+        rcases hl with rfl | rfl
+        · exact Or.inl rfl
+        · exact Or.inr ⟨0, info.path, k, by simp [Ev.slot], by simp, hk0⟩
+    · rcases ih h p (i + 1) (fun k' hk' => hk k' (List.mem_cons_of_mem _ hk')) e h2 with h0 | ⟨j, q', k', e1, e2, e3⟩
+      · exact Or.inl h0
+      · exact Or.inr ⟨j + 1, q', k', by rw [e1]; congr 1; omega, by simpa using e2, e3⟩
+
+/-- every write of an operator generator goes to the slot of a real node, and every yielded mutation
+mutates a real node: a placeholder entry of a child list is never written, restored or mutated -/
+theorem slot_visit (op : Op) (tgt : Target) : ∀ (t : Tree) (h : Heap) (p : Path),
+    ∀ e ∈ visit op tgt h p t, t.nodeAt e.slot := by
+  intro t
+  induction t using Tree.ind with
+  | hole v => intro h p e he; simp [visit] at he
+  | step l ks ih =>
+    intro h p e he
+    have root : (Tree.node l ks).nodeAt [] := ⟨l, ks, rfl⟩
+    rw [visit] at he
+    rcases List.mem_append.mp he with h1 | h2
+    · split at h1
+      · cases h1
+      · rcases List.mem_append.mp h1 with a | b
+        · unfold nodeEvs at a
+          obtain ⟨x, _, hx⟩ := List.mem_flatMap.mp a
+          obtain ⟨nm, r⟩ := x
+          dsimp only at hx
+          split at hx
+          · simp only [List.mem_cons, List.not_mem_nil, or_false] at hx
+            rcases hx with rfl | rfl <;> exact root
+          · cases hx
+        · rcases slot_visitKids op tgt ks h p 0 ih e b with h0 | ⟨j, q', k, e1, e2, l', ks', e3⟩
+          · rw [h0]; exact root
+          · refine ⟨l', ks', ?_⟩
+            rw [e1, Nat.zero_add, Tree.get?, e2]
+            exact e3
+    · simp only [List.mem_singleton] at h2
+      subst h2
+      exact root
+
+/-- a path through a placeholder ends there -/
+theorem get?_hole_prefix : ∀ (t : Tree) (p q : Path) (v : Nat) (s : Tree),
+    t.get? p = some (.hole v) → p <+: q → t.get? q = some s → q = p := by
+  intro t p
+  induction p generalizing t with
+  | nil =>
+    intro q v s hp _ hq
+    simp only [Tree.get?, Option.some.injEq] at hp
+    subst hp
+    cases q with
+    | nil => rfl
+    | cons j q => simp [Tree.get?] at hq
+  | cons i p ih =>
+    intro q v s hp hpre hq
+    cases q with
+    | nil => simp at hpre
+    | cons j q =>
+      obtain ⟨hij, hpre'⟩ := List.cons_prefix_cons.mp hpre
+      subst hij
+      cases t with
+      | hole w => simp [Tree.get?] at hp
+      | node l ks =>
+        rw [Tree.get?] at hp hq
+        cases hk : ks[i]? with
+        | none => rw [hk] at hp; cases hp
+        | some k =>
+          rw [hk] at hp hq
+          rw [ih k q v s hp hpre' hq]
 
 end PynguinModel.Mutants
